@@ -1,5 +1,6 @@
 import Ledger.Machine.Ast
 import Ledger.Machine.Allotment
+import Ledger.Machine.Validate
 import Ledger.Machine.Funding
 
 /-!
@@ -107,7 +108,7 @@ def evalExpr (env : Env) : Expr → Except Err Value
   | .num n => .ok (.number n)
   | .str s => .ok (.str s)
   | .portion t =>
-    match parsePortionSpecific t with
+    match parsePortionGo t with
     | .ok p => .ok (.portion p)
     | .error _ => .error (.fault "portion literal")
   | .mon a n =>
@@ -366,7 +367,7 @@ end
 
 def evalPortion (env : Env) : PortionE → Except Err Portion
   | .lit t =>
-    match parsePortionSpecific t with
+    match parsePortionGo t with
     | .ok p => .ok p
     | .error _ => .error (.fault "portion literal")
   | .var x =>
